@@ -55,6 +55,12 @@ func (x *Exec) epochInit(e *Epoch, class string, s *Sort) *Term {
 		return t
 	}
 	var t *Term
+	if x.epoch0 != nil && e != x.epoch0 && x.isImmutable(class) {
+		// field declared immutable (option immutable:Type.field): no havoc reaches it
+		t = x.epochInit(x.epoch0, class, s)
+		e.cache[class] = t
+		return t
+	}
 	if e.parent != nil && !classMatches(class, e.havoc) {
 		t = x.epochInit(e.parent, class, s)
 		e.cache[class] = t
@@ -95,6 +101,34 @@ func classMatches(c string, prefixes []string) bool {
 	return false
 }
 
+// isImmutable: the class is a struct field declared immutable by an `option immutable:Type.field`
+// of its package's contracts (an assumption: the field is written only when its object is made).
+func (x *Exec) isImmutable(c string) bool {
+	if x.immutable == nil {
+		x.immutable = map[string]bool{}
+		for _, lp := range x.ld.Pkgs {
+			if lp.CF == nil {
+				continue
+			}
+			for o := range lp.CF.Options {
+				if strings.HasPrefix(o, "immutable:") {
+					x.immutable["f:"+lp.Path+"."+strings.TrimPrefix(o, "immutable:")] = true
+				}
+			}
+		}
+	}
+	if len(x.immutable) == 0 {
+		return false
+	}
+	if x.immutable[c] {
+		return true
+	}
+	if i := strings.IndexAny(c, "#"); i > 0 && x.immutable[c[:i]] {
+		return true
+	}
+	return false
+}
+
 func isGhostClass(c string) bool { return strings.HasPrefix(c, "g:") }
 
 func (x *Exec) heapGet(st *State, class string, s *Sort) *Term {
@@ -123,7 +157,7 @@ func (x *Exec) havocAll(st *State) {
 	st.epoch.now = x.now(&State{heap: old, epoch: oldEpoch})
 	// ghost classes survive: materialise every known ghost class
 	for c, s := range x.classSort {
-		if isGhostClass(c) {
+		if isGhostClass(c) || x.isImmutable(c) || (strings.HasPrefix(c, "b:") && !x.boxEsc) {
 			if t, ok := old[c]; ok {
 				st.heap[c] = t
 			} else {
